@@ -97,6 +97,9 @@ def parse_directive(text, tline):
     return d
 
 
+LOSABLE = ("loop", "loopbody", "beforeloop", "afterloop", "before", "after", "closure", "inline", "desugar_for", "hoist", "rewrite")
+
+
 ANCH = re.compile(r"`((?:[^`])*)`(?:#(\d+))?")
 
 
@@ -349,7 +352,7 @@ def _apply_section(sec, head, it, data, s0, e0, what, edits, drop, tags_box, ret
         raise GenError(f"template line {tl}: unknown section '{head}'")
 
 
-def expand_fn(repo, d, log):
+def expand_fn(repo, d, log, force_stub=()):
     rel, path = d["file"], d["path"]
     ix = index(repo, rel)
     it = find_item(ix, "fn", path, rel)
@@ -359,6 +362,10 @@ def expand_fn(repo, d, log):
     edits = []
     tags = []
     stub = "stub" in d["flags"]
+    degraded = []     # reasons why this function cannot be judged (hints lost / forced to a stub); its failures are never alarms
+    if f"{rel}::{path}" in force_stub and not stub:
+        stub = True
+        degraded.append("replaced by an assumed stub: the text spliced into its body no longer compiles against the changed code")
     drop = set(DEFAULT_DROP_ATTRS)
     ret_name = None
     skipped = []
@@ -372,10 +379,17 @@ def expand_fn(repo, d, log):
         try:
             _apply_section(sec, head, it, data, s0, e0, what, edits, drop, tags_box, ret_box)
         except GenError as ex:
-            if not optional:
-                raise
             del edits[n_before:]
-            skipped.append({"section": head, "reason": str(ex)})
+            if optional:
+                skipped.append({"section": head, "reason": str(ex)})
+            elif head.split()[0].rstrip(":") in LOSABLE and not stub:
+                # a mandatory proof hint / rewrite whose anchor vanished (the code was refactored): the function is still
+                # extracted and verified, but whatever fails in it is reported as undecided, never as a violation
+                degraded.append(f"section '{head}' could not be placed: {ex}")
+            elif stub and head.split()[0].rstrip(":") in LOSABLE:
+                pass
+            else:
+                raise
         for e_ in edits[n_before:]:
             e_.sec = sec_no
             e_.optional = optional
@@ -415,8 +429,12 @@ def expand_fn(repo, d, log):
         a, b = clash
         victim = a if a.optional else (b if b.optional else None)
         if victim is None:
-            raise GenError(f"{what}: overlapping edits at byte {b.pos}")
-        skipped.append({"section": d["sections"][victim.sec]["head"], "reason": "overlaps another edit"})
+            victim = b if b.sec >= 0 else a
+            if victim.sec < 0:
+                raise GenError(f"{what}: overlapping edits at byte {b.pos}")
+            degraded.append(f"section '{d['sections'][victim.sec]['head']}' overlaps another edit")
+        else:
+            skipped.append({"section": d["sections"][victim.sec]["head"], "reason": "overlaps another edit"})
         edits = [e for e in edits if e.sec != victim.sec]
     # a stub drops edits inside the body
     if stub:
@@ -437,7 +455,7 @@ def expand_fn(repo, d, log):
     if pos < e0:
         segs.append((data[pos:e0], ("src", rel, pos)))
     body_bytes = data[it["body"][0]:it["body"][1]]
-    info = {"file": rel, "path": path, "name": it["name"], "tags": tags, "stub": stub,
+    info = {"file": rel, "path": path, "name": it["name"], "tags": tags, "stub": stub, "degraded": degraded,
             "line": line_of(data, it["sig"][0]), "end_line": line_of(data, e0),
             "body_sha": hashlib.sha256(body_bytes).hexdigest()[:16],
             "loops": len(it["loops"]), "n_edits": len(edits), "src_span": [s0, e0],
@@ -617,7 +635,7 @@ impl core::ops::BitOrAssign for {name} {{
 DIRECTIVE = re.compile(r"/\*@ (.*?)@\*/", re.S)
 
 
-def expand(repo, template_path, out_path, include_dirs=()):
+def expand(repo, template_path, out_path, include_dirs=(), force_stub=()):
     """Expand a template; returns meta dict (functions, types, edit log, segment map)."""
     text = open(template_path).read()
     # textual includes first:  //@include name
@@ -641,7 +659,7 @@ def expand(repo, template_path, out_path, include_dirs=()):
         out.append((text[pos:m.start()].encode(), ("tmpl", text.count("\n", 0, pos) + 1)))
         d = parse_directive(m.group(1), tline)
         if d["kind"] == "fn":
-            segs, info = expand_fn(repo, d, log)
+            segs, info = expand_fn(repo, d, log, force_stub)
             fns.append(info)
         elif d["kind"] == "type":
             segs, info = expand_type(repo, d, log)
